@@ -30,12 +30,15 @@ SPECS = [
     ('dense_stokes', True), ('diag_tree_mixed', True), ('hom_tree_mixed', True), ('hom_unit_widening', True), ('diag_blocks_paramfree', True),
     ('diag_2d', True), ('diag_5', True), ('diag_tree_neg', True), ('dense_widening', True), ('bdiag_widening', True),
     ('lazy_inv_spd', False), ('toast_obs', True), ('toast_obs_T', True),
+    ('opt_k1arr_times_0d', True), ('opt_0d_div_k1arr', True), ('opt_k11arr_times_tree0d', True), ('opt_diag_trailing_unit', True),
     ('toep_dense_wide', True), ('toep_os_n8', False), ('toep_os_k2n6', False), ('toep_os_k1n3', False), ('rot_iqu_far', False), ('rot_qu_far_T', False),
 ]
 SPEC_NAMES = [s[0] for s in SPECS]
 EXACT = dict(SPECS)
 NO_TRANSPOSE = {'lazy_inv_spd'}          # the library does not support transposes of the iterative inverse
-SINGLE_ONLY = {'toep_os_n8', 'toep_os_k2n6', 'toep_os_k1n3', 'toep_os', 'toep_batched', 'toep_os_short', 'dense_widening', 'bdiag_widening', 'dense_complex', 'diag_complex', 'hom_complex', 'diag_tree_mixed', 'hom_tree_mixed', 'hom_unit_widening'}  # widening: float16 data would overflow in products  # ~100 ms per application (fori_loop re-traced): singles only; C09 owns the methods
+# opt_*: constructions the library may legitimately refuse (ValueError/TypeError); if it accepts them, every oracle applies
+OPTIONAL = {'opt_k1arr_times_0d', 'opt_0d_div_k1arr', 'opt_k11arr_times_tree0d', 'opt_diag_trailing_unit'}
+SINGLE_ONLY = OPTIONAL | {'toep_os_n8', 'toep_os_k2n6', 'toep_os_k1n3', 'toep_os', 'toep_batched', 'toep_os_short', 'dense_widening', 'bdiag_widening', 'dense_complex', 'diag_complex', 'hom_complex', 'diag_tree_mixed', 'hom_tree_mixed', 'hom_unit_widening'}  # widening: float16 data would overflow in products  # ~100 ms per application (fori_loop re-traced): singles only; C09 owns the methods
 MASKED = {'index_mask', 'pack_iqu', 'pack_iqu_T'}  # boolean-mask selection: excluded from the filter_jit-as-argument claim
 
 _MEMO: dict = {}
@@ -210,6 +213,14 @@ def _build(name, dt):
         return LinearPolarizerOperator(stokes('IQU', 2)).T
     if name == 'toep_os_short':   # short signal relative to the band: default FFT size larger than the padded signal
         return SymmetricBandToeplitzOperator(arr([4, 1, 0.5, 0.25]), sds(2))
+    if name == 'opt_k1arr_times_0d':     # a one-element ARRAY as the scalar factor, on an operator with a 0-d output leaf
+        return jnp.asarray([2.0], D) * IndexOperator(1, in_structure=b)
+    if name == 'opt_0d_div_k1arr':
+        return IndexOperator(-1, in_structure=b) / np.asarray([4.0], dtype=np.dtype(D))
+    if name == 'opt_k11arr_times_tree0d':
+        return np.asarray([[0.5]], dtype=np.dtype(D)) * IndexOperator((0,), in_structure={'u': a, 'v': m})
+    if name == 'opt_diag_trailing_unit':  # diagonal values whose trailing unit axis reaches beyond the rank of one leaf
+        return DiagonalOperator(arr([[2], [3]]), axis_destination=0, in_structure={'tod': m, 'ground': a})
     if name == 'toep_dense_wide':  # far more band values than samples (offsets beyond n + 2)
         return SymmetricBandToeplitzOperator(arr([4, 1, 0.5, 0.25, 2, -1, 3, 0.125, -0.5]), sds(5), method='dense')
     if name == 'toep_os_n8':       # lengths for which the last kept sample falls on a block boundary of the default FFT size
